@@ -132,6 +132,10 @@ def positions(lit):
     yield '{"extra":%s,"jsonrpc":"2.0","method":"ok","id":1}' % lit
 
 
+# nesting around the interpreter's limits: the Python recursion limit (1000) and the C-level limit of the json scanner (~1500)
+DEEP = [100, 500, 900, 990, 995, 1000, 1005, 1100, 1400, 1490, 1495, 1496, 1500, 1503, 1510, 2000, 5000, 20000, 100000]
+
+
 def g3_texts(ctx):
     for d in DIGITS:
         for sign in ('', '-'):
@@ -149,7 +153,7 @@ def g3_texts(ctx):
         yield '{"%s":1,"jsonrpc":"2.0","method":"ok","id":"x"}' % e
     yield '{"jsonrpc":"2.0","method":"\\u00e9","id":1}'
     yield '{"jsonrpc":"2.0","method":"é","params":[1],"id":"é"}'
-    for depth in range(1, 65):
+    for depth in list(range(1, 65)) + DEEP:
         for o, c in (('[', ']'), ('{"a":', '}')):
             nest = o * depth + '1' + c * depth
             yield nest
@@ -282,14 +286,14 @@ def run(ctx):
                 'for single objects (jsonrpc x id x method x params x extra member), all scalars, all arrays of length '
                 '<= %d over a 19-element alphabet (incl. repeated and falsy ids) x max_batch_size {None,0,1,2,n}; G3 = lexical edges (integer literals '
                 'of %r digits, non-finite / extreme floats, every escape / control / surrogate / astral character, '
-                'nesting 1..64, whitespace / BOM / duplicate members) at 14 positions. state = one (dispatcher, '
+                'nesting 1..64 and 19 depths from 100 to 100000 around the interpreter limits, whitespace / BOM / duplicate members) at 14 positions. state = one (dispatcher, '
                 'max_batch_size, text) point, distinct by construction; non-trivial = answered with anything other '
                 'than the plain parse error'
                 % (ctx.pick(5, 6), ctx.pick(4, 5), TOKENS, ctx.pick(3, 4), DIGITS))
     ctx.assumptions += ['methods return JSON-encodable values (they never echo arguments in this check)',
-                        'nesting beyond 64 and token strings beyond the bound are not covered']
+                        'nesting depths other than 1..64 and the 19 listed ones, and token strings beyond the bound, are not covered']
     ctx.bounds.update(tokens=len(TOKENS), token_len_sync=ctx.pick(5, 6), token_len_async=ctx.pick(4, 5),
-                      array_len=ctx.pick(3, 4), nesting=64, digits=DIGITS)
+                      array_len=ctx.pick(3, 4), nesting=[64] + DEEP, digits=DIGITS)
     ctx.run_cases('C01', lambda: gen_cases(ctx), run_case, recheck_every=1009)
     oc = ctx.rec.outcomes
     ctx.guard('parse errors, invalid requests, successes, batches and silence all observed',
